@@ -242,56 +242,71 @@ inductive FilterStep where
   | fail
   deriving Repr, DecidableEq, Inhabited
 
+/-- how Locate compares one filter attribute with the stored value (the `elif name == …` chain) -/
+inductive MatchKind where
+  | appInfo | group | name | enumEq | intEq | textEq | mask | date
+  deriving DecidableEq, Repr
+
+def matchKinds : List (String × MatchKind) :=
+  [("Application Specific Information", .appInfo), ("Object Group", .group), ("Name", .name),
+   ("State", .enumEq), ("Object Type", .enumEq), ("Cryptographic Algorithm", .enumEq),
+   ("Cryptographic Length", .intEq), ("Unique Identifier", .textEq), ("Operation Policy Name", .textEq),
+   ("Cryptographic Usage Mask", .mask), ("Certificate Type", .enumEq), ("Initial Date", .date)]
+
+def passIf (t : DateTrack) (b : Bool) : R FilterStep := pure (if b then .pass t else .fail)
+
+/-- compare one filter value with the value the getter returned -/
+def compareFilter (o : Obj) (t : DateTrack) (a : TAttr) (got : Got) : R FilterStep :=
+  match matchKinds.lookup a.name with
+  | some .appInfo =>
+    match a.value, got with
+    | .appInfo ns d, .multi vs => passIf t (vs.contains (.appInfo ns d))
+    | _, _ => ierr "value has no application_namespace"
+  | some .group =>
+    match a.value, got with
+    | .text s, .multi vs => passIf t (vs.contains (.text s))
+    | _, _ => ierr "no .value"
+  | some .name =>
+    match got with
+    | .multi vs => passIf t (vs.contains a.value)
+    | _ => ierr "name list"
+  | some .enumEq =>
+    match a.value, got with
+    | .enum v, .single (.enum x) => passIf t (v == x)
+    | _, _ => ierr "no .value"
+  | some .intEq =>
+    match a.value, got with
+    | .int v, .single (.int x) => passIf t (v == x)
+    | _, _ => ierr "no .value"
+  | some .textEq =>
+    match a.value, got with
+    | .text v, .single (.text x) => passIf t (v == x)
+    | _, _ => ierr "no .value"
+  | some .mask =>
+    match a.value, got with
+    | .int v, .single (.int x) =>
+      if v < 0 then ierr "negative mask" else
+      passIf t (((v.toNat &&& Mask.all) &&& (Mask.all ^^^ x.toNat)) == 0)
+    | _, _ => ierr "no .value"
+  | some .date =>
+    match a.value with
+    | .date v => do
+      let t' ← trackDate { t with value := some o.initialDate } v
+      pure (.pass t')
+    | _ => ierr "no .value"
+  | none =>
+    -- generic branch `value.value != attribute` (reached for Sensitive only)
+    match a.value, got with
+    | .bool v, .single (.bool x) => passIf t (v == x)
+    | _, _ => ierr "no .value"
+
 def filterOne (c : Ctx) (o : Obj) (t : DateTrack) (a : TAttr) : R FilterStep := do
   if !(← c.isApplicable a.name o.otype) then pure .fail else
   -- `except AttributeError`: an object that does not carry the attribute cannot match
   match getAttr o a.name with
   | .error _ => pure .fail
   | .ok none => pure (.pass t)
-  | .ok (some got) =>
-    let ok (b : Bool) : R FilterStep := pure (if b then .pass t else .fail)
-    if a.name == "Application Specific Information" then
-      match a.value, got with
-      | .appInfo ns d, .multi vs => ok (vs.contains (.appInfo ns d))
-      | _, _ => ierr "value has no application_namespace"
-    else if a.name == "Object Group" then
-      match a.value, got with
-      | .text s, .multi vs => ok (vs.contains (.text s))
-      | _, _ => ierr "no .value"
-    else if a.name == "Name" then
-      match got with
-      | .multi vs => ok (vs.contains a.value)
-      | _ => ierr "name list"
-    else if a.name == "State" || a.name == "Object Type" || a.name == "Cryptographic Algorithm"
-         || a.name == "Certificate Type" then
-      match a.value, got with
-      | .enum v, .single (.enum x) => ok (v == x)
-      | _, _ => ierr "no .value"
-    else if a.name == "Cryptographic Length" then
-      match a.value, got with
-      | .int v, .single (.int x) => ok (v == x)
-      | _, _ => ierr "no .value"
-    else if a.name == "Unique Identifier" || a.name == "Operation Policy Name" then
-      match a.value, got with
-      | .text v, .single (.text x) => ok (v == x)
-      | _, _ => ierr "no .value"
-    else if a.name == "Cryptographic Usage Mask" then
-      match a.value, got with
-      | .int v, .single (.int x) =>
-        if v < 0 then ierr "negative mask" else
-        ok (((v.toNat &&& Mask.all) &&& (Mask.all ^^^ x.toNat)) == 0)
-      | _, _ => ierr "no .value"
-    else if a.name == "Initial Date" then
-      match a.value with
-      | .date v => do
-        let t' ← trackDate { t with value := some o.initialDate } v
-        pure (.pass t')
-      | _ => ierr "no .value"
-    else
-      -- generic branch `value.value != attribute` (reached for Sensitive only)
-      match a.value, got with
-      | .bool v, .single (.bool x) => ok (v == x)
-      | _, _ => ierr "no .value"
+  | .ok (some got) => compareFilter o t a got
 
 /-- the per-object loop over the filter attributes (with `break`) -/
 def filterObj (c : Ctx) (o : Obj) : DateTrack → List TAttr → R (Bool × DateTrack)
